@@ -97,7 +97,7 @@ func (p *printer) file() {
 	case "proto3":
 		p.line("syntax = %s;", quote("proto3", p.st))
 	default:
-		if fd.Syntax != nil || !p.st.chance(0.0) {
+		if !p.st.chance(0.1) {
 			p.line("syntax = %s;", quote("proto2", p.st))
 		}
 	}
@@ -490,8 +490,18 @@ func (p *printer) messageBody(fq string, m *descriptorpb.DescriptorProto) {
 	}
 	var seq []func()
 	ui, bi := 0, 0
+	var nestedOrder []int // nested-type indices in the order the source will declare them
 	emitUnit := func(i int) {
 		u := units[i]
+		for _, f := range u.fields {
+			if k, e := mapEntryOf(fq, f, m.NestedType); e != nil {
+				nestedOrder = append(nestedOrder, k)
+			} else if p.isGroupSyntax(f) {
+				if k := findMsg(fq, f.GetTypeName(), m.NestedType); k >= 0 {
+					nestedOrder = append(nestedOrder, k)
+				}
+			}
+		}
 		seq = append(seq, func() {
 			if u.oneof < 0 {
 				p.field(fq, u.fields[0], m.NestedType, nil)
@@ -515,8 +525,22 @@ func (p *printer) messageBody(fq string, m *descriptorpb.DescriptorProto) {
 	}
 	emitBlock := func(j int) {
 		b := extBlocks[j]
+		for _, f := range b.fields {
+			if p.isGroupSyntax(f) {
+				if k := findMsg(fq, f.GetTypeName(), m.NestedType); k >= 0 {
+					nestedOrder = append(nestedOrder, k)
+				}
+			}
+		}
 		seq = append(seq, func() { p.extendBlock(fq, b, m.NestedType) })
 	}
+	defer func() {
+		for i := 1; i < len(nestedOrder); i++ {
+			if nestedOrder[i] <= nestedOrder[i-1] {
+				p.fail("message %s cannot be rendered: the order of nested_type cannot be reproduced (%v)", fq, nestedOrder)
+			}
+		}
+	}()
 	for k, nm := range m.NestedType {
 		if u, ok := ownedField[k]; ok {
 			for ui <= u {
@@ -541,6 +565,7 @@ func (p *printer) messageBody(fq string, m *descriptorpb.DescriptorProto) {
 			bi++
 		}
 		nm := nm
+		nestedOrder = append(nestedOrder, k)
 		seq = append(seq, func() { p.message(fq, nm) })
 	}
 	// remaining units and blocks, interleaved
